@@ -141,4 +141,20 @@ def modelLeafWrites : List String :=
 
 theorem insert_leaf_writes : insertLeafWrites = modelLeafWrites := by decide
 
+
+/-! ### `Router.Mount` / `mountRoute`: the prefix loses ONE trailing slash, gets a leading one when it is empty
+or has none; the sub-router's route `/` is the prefix itself, any other route the prefix followed by its path -/
+
+/-- the statements as they stand in the source, and the model's `mountPath` on the inputs that tell the variants
+apart (`TrimRight` instead of `TrimSuffix`: `/m//`; no leading-slash rule: `m`, ``; no `/` rule: the last two) -/
+theorem mount_glue :
+    mountPrefixNorm = ["TrimSuffix(\"/\")", "if $p == \"\" || $p[0] != '/' { $p = \"/\" + $p }"] ∧
+    mountJoin = ["Path()==\"/\":$p", "else:$p + Path()"] ∧
+    mountPath ['/', 'm', '/'] ['/', 'x'] = ['/', 'm', '/', 'x'] ∧
+    mountPath ['m'] ['/', 'x'] = ['/', 'm', '/', 'x'] ∧
+    mountPath ['/', 'm', '/', '/'] ['/', 'x'] = ['/', 'm', '/', '/', 'x'] ∧
+    mountPath [] ['/', 'x'] = ['/', '/', 'x'] ∧
+    mountPath ['/', 'm'] ['/'] = ['/', 'm'] ∧
+    mountPath ['/'] ['/'] = ['/'] := by decide
+
 end Rivaas.Tie.C01Routing
